@@ -1,6 +1,6 @@
 #!/bin/bash
 # usage: tools/refactormatrix.sh <dir with */NN.diff> — runs every check on every behaviour-preserving refactoring; any VIOLATION is a false alarm
-ROOT="${1:-/verif/refactors}"
+ROOT="$(realpath "${1:-/verif/refactors}")"
 export GOFLAGS=-mod=mod GOPROXY=off GOSUMDB=off GOTOOLCHAIN=local GOWORK=off
 for pf in $(ls $ROOT/*/*.diff | sort); do
   D=$(mktemp -d /tmp/refrun.XXXXXX)
